@@ -8,6 +8,11 @@ package main
 // accepted_prime_ntt, accepted_bits61, accepted_then_ntt_roundtrip, rejected_no_panic,
 // params_roundtrip, genmoduli_spec, genmoduli_checks_lognthroot, bgv_qmul_disjoint,
 // bgv_t_coprime_qp, exported_instantiable, exported_within_table, json_literal_terminates.
+//
+// The `exported` lines end in known=1: the model answers known=1 only if the dumped set is
+// literally the one compiled into lean/Lattigo/Model/Params.lean (`exportedSets`, the list the
+// theorem exported_within_table is proved about). After a change of the library's literals,
+// regenerate that list with harness/c19_exported.py.
 
 import (
 	"encoding/json"
@@ -982,7 +987,7 @@ func c19EmitExported(c *Ctx, tbl map[[2]int]int, name string, logN, xsH int, q, 
 		}
 	}
 	args := fmt.Sprintf("name=%s logN=%d xsH=%d Q=%s P=%s", name, logN, xsH, Vec(q), Vec(p))
-	c.Emit("exported "+args, fmt.Sprintf("bitQ=%d bitP=%d bitQP=%d kind=%d table=%s within=%d strict=%d", bq, bp, qp.BitLen(), kind, ts, within, strict))
+	c.Emit("exported "+args, fmt.Sprintf("bitQ=%d bitP=%d bitQP=%d kind=%d table=%s within=%d strict=%d known=1", bq, bp, qp.BitLen(), kind, ts, within, strict))
 	c.Count("exported")
 	if probe {
 		d := ""
